@@ -5,6 +5,8 @@ package main
 import (
 	"bytes"
 	"fmt"
+	"math"
+	"math/big"
 	"regexp"
 	"strings"
 
@@ -57,6 +59,81 @@ func diffClass(d string) string {
 		}
 	}
 	return "other"
+}
+
+// --- monitor 3: decimal literals at the rounding boundaries of float32 / float64
+
+// floatEdges feeds literals whose exact decimal value sits on, a hair above and a hair below the midpoint of
+// two adjacent floats. The independent reading (refsnbt.Literal: strconv at the suffix's own precision) says
+// which neighbour such a literal denotes; a parser that rounds through another precision picks the wrong one.
+func floatEdges(c *vm.Ctx, r *vm.Rand, n int) {
+	eps := new(big.Float).SetPrec(600)
+	eps.SetString("1e-90")
+	for i := 0; i < n; i++ {
+		is32 := i%3 != 2
+		var lo, hi *big.Float
+		if is32 {
+			e := uint32(r.Range(127-40, 127+60))
+			bits := e<<23 | uint32(r.Uint64())&0x7fffff
+			if i%16 == 0 {
+				bits = e<<23 | 0x7fffff // next float crosses a power of two
+			}
+			lo = new(big.Float).SetPrec(600).SetFloat64(float64(math.Float32frombits(bits)))
+			hi = new(big.Float).SetPrec(600).SetFloat64(float64(math.Float32frombits(bits + 1)))
+		} else {
+			e := uint64(r.Range(1023-40, 1023+60))
+			bits := e<<52 | r.Uint64()&(1<<52-1)
+			lo = new(big.Float).SetPrec(600).SetFloat64(math.Float64frombits(bits))
+			hi = new(big.Float).SetPrec(600).SetFloat64(math.Float64frombits(bits + 1))
+		}
+		mid := new(big.Float).SetPrec(600).Add(lo, hi)
+		mid.Quo(mid, big.NewFloat(2))
+		for k, v := range []*big.Float{mid, new(big.Float).SetPrec(600).Add(mid, eps), new(big.Float).SetPrec(600).Sub(mid, eps)} {
+			lit := v.Text('f', 95)
+			lit = strings.TrimRight(lit, "0")
+			if strings.HasSuffix(lit, ".") {
+				lit += "0"
+			}
+			if r.Intn(4) == 0 {
+				lit = "-" + lit
+			}
+			suf := map[bool][]string{true: {"f", "F"}, false: {"d", "D", ""}}[is32]
+			lit += suf[r.Intn(len(suf))]
+			want, ok := refsnbt.Literal(lit)
+			if !ok {
+				panic("oracle self-check failed: boundary literal outside the agreement grammar: " + lit)
+			}
+			text := lit
+			switch r.Intn(3) {
+			case 1:
+				text = "{a:" + lit + "}"
+				want = &refnbt.Value{Tag: refnbt.Compound, Comp: []refnbt.Entry{{Name: "a", V: want}}}
+			case 2:
+				text = "[" + lit + "]"
+				want = &refnbt.Value{Tag: refnbt.List, Elem: want.Tag, List: []*refnbt.Value{want}}
+			}
+			c.Eval(vm.HashStr("edge", text), true)
+			wit := func() any { return map[string]any{"text": text, "independent_reading": refnbt.Describe(want)} }
+			doc, _, err, pan := toBinary(c, "t2b/float-boundary", text, wit)
+			if pan {
+				continue
+			}
+			if err != nil {
+				c.Violation("t2b/float-boundary/rejected/"+vm.NormErr(err.Error()), "the parser rejects an in-range decimal literal: "+err.Error(), wit())
+				continue
+			}
+			got, _, used, perr := refnbt.Parse(doc, true)
+			if perr != nil || used != len(doc) {
+				c.Violation("t2b/float-boundary/document-malformed", fmt.Sprintf("nil error but the document is not well-formed: %v", perr), wit())
+				continue
+			}
+			if d := refnbt.Equal(got, want, refnbt.Opts{}); d != "" {
+				c.Violation("t2b/float-boundary/value-disagrees/"+diffClass(d), "a decimal literal next to a rounding boundary is not converted to the nearest float of its own type: "+d, wit())
+				continue
+			}
+			c.Cover(fmt.Sprintf("float-boundary.%s.%s", map[bool]string{true: "float", false: "double"}[is32], []string{"midpoint", "above", "below"}[k]))
+		}
+	}
 }
 
 // --- monitor 1: binary -> text -> binary
@@ -345,6 +422,7 @@ func run(c *vm.Ctx) {
 		c.Tick()
 		t2b(c, tr, tg, i)
 	}
+	floatEdges(c, c.Rand("float-edges"), c.Scale(4000, 80000))
 	// totality
 	mr := c.Rand("mutations")
 	if c.Shard == 0 {
